@@ -226,5 +226,5 @@ def nontrivial(req, ans):
     return ans.startswith("ok") and " C" in ans and " C- " not in ans
 
 LEVEL = "proof"
-LEVEL_TEXT = "Lean 4 theorems: for every closure that tracks - capture-free ones and, since capture_exact_tracks, closures that open further captures to any depth (tracks_capture, tracks_bind) - Constructed::capture returns exactly the octets the closure advanced over - minus the end-of-contents marker of the enclosing value if the closure read it (state changed; eoc_len octets, Constructed.eoc in the model) -, decoding continues immediately after what was advanced over, the enclosing limit is reduced by exactly that amount and an enclosing capture sees all of it (capture_exact; capture_one_exact, capture_all_exact). capture_one returns exactly the octets of ONE complete value the grammar accepts at the capture position, the Constructed is unchanged and decoding continues right behind it (C11b.capture_one_value, via the skip-machine theorems of C10). NEVER THE END-OF-CONTENTS MARKER: inside an indefinite-length value whose content is, by the grammar of the mode, the values ts followed by end-of-contents, capture_all returns octets that parse, on their own, as exactly ts with nothing left, the Constructed is done and decoding continues behind the marker (C11b.capture_all_indef_values, on C11b.untilEoc_values: the octets in front of the marker the grammar stops at are exactly the values; kernel-checked witness of the repaired defect D12: eoc_not_captured). The grammar is local (C11b.parse_prefix), so the captured octets parsed on their own - by the grammar and, through C02, by the generic reader at top level - are exactly those values: decoding later = decoding in place (C11b.captured_value_decodes, captured_value_read_later, decode_later_same); writing captured data back out reproduces it unchanged (C11b.reencode_unchanged). Correspondence + generator oracle: captures of j <= n values by every accessor family in definite/indefinite/top-level/nested parents (bodies that do and do not observe the end of the parent), later decode / decode_partial, over slice/bytes/stingy/chunked sources."
+LEVEL_TEXT = "Lean 4 theorems: for every closure that tracks - capture-free ones and, since capture_exact_tracks, closures that open further captures to any depth (tracks_capture, tracks_bind) - Constructed::capture returns exactly the octets the closure advanced over - minus the end-of-contents marker of the enclosing value if the closure read it (state changed; eoc_len octets, Constructed.eoc in the model) -, decoding continues immediately after what was advanced over, the enclosing limit is reduced by exactly that amount and an enclosing capture sees all of it (capture_exact; capture_one_exact, capture_all_exact). capture_one returns exactly the octets of ONE complete value the grammar accepts at the capture position, the Constructed is unchanged and decoding continues right behind it (C11b.capture_one_value, via the skip-machine theorems of C10). NEVER THE END-OF-CONTENTS MARKER: inside an indefinite-length value whose content is, by the grammar of the mode, the values ts followed by end-of-contents, capture_all returns octets that parse, on their own, as exactly ts with nothing left, the Constructed is done and decoding continues behind the marker (C11b.capture_all_indef_values, on C11b.untilEoc_values: the octets in front of the marker the grammar stops at are exactly the values; kernel-checked witness of the repaired defect D12: eoc_not_captured). The grammar is local (C11b.parse_prefix), so the captured octets parsed on their own - by the grammar and, through C02, by the generic reader at top level - are exactly those values: decoding later = decoding in place (C11b.captured_value_decodes, captured_value_read_later, decode_later_same); writing captured data back out reproduces it unchanged (C11b.reencode_unchanged). For closures that capture again (C11c): every closure built from take_* (framable value closures), skip_*, sequencing and capture / capture_one / capture_all leaves the Constructed as it was or has closed it with eoc = the size of an end-of-contents header at the end of what it moved over, and does nothing on a closed one (Good, closed under these combinators); hence capture never returns the marker, at any depth of nesting (capture_no_marker; d12b_example is the kernel-evaluated witness of the repaired defect D12b). Correspondence + generator oracle: captures of j <= n values by every accessor family in definite/indefinite/top-level/nested parents (bodies that do and do not observe the end of the parent), later decode / decode_partial, over slice/bytes/stingy/chunked sources. Since session 4 also captures inside captures (capone / capall / cap{...} in any order inside a cap body, in top-level / definite / indefinite / indefinite-in-definite parents), with an oracle for EVERY capture of the script."
 LEVEL_NOTE = 'Trusted: Lean 4.33 kernel; axioms propext, Classical.choice, Quot.sound only; the hand-written model (lean/Bcder/Model) tied to /repo on every run by differential correspondence (tools/check.py, harness/, lean/Driver.lean); reference definitions lean/Bcder/Spec. That the octets advanced over by an arbitrary closure are complete value encodings is the frame lemma of C02; for arbitrary capture bodies (other than capture_one / capture_all) the exclusion of the end-of-contents marker is capture_exact + the value of eoc_len given by C02/C10 for each reader (pnv_eq, skip_absent_iff: eoc = octets of the marker) and the correspondence check; captures inside a capture body, to any depth, are inside capture_exact_tracks (the closure need only track, which captures themselves do: tracks_capture, tracks_bind; nested_capture_exact, nested_example). That the bookkeeping field eoc IS the size of the marker and stays it is C11c: for every closure built from the readers (take_* with framable value closures - capture-free ones or ones that capture on the nested value -, skip_opt / skip_one / skip_all, sequencing, capture / capture_one / capture_all of such closures, to any depth - the family Good, closed under these combinators) the Constructed is left as it was or has been closed with eoc = the size of an end-of-contents header at the end of the octets moved over, and a reader applied to a closed Constructed does nothing; hence capture_no_marker: capture never returns the marker. This is exactly where the repaired defect D12b sat (a nested capture on a closed value reset the field); it was found by the correspondence check after seeded change C11-6 widened the generator, and the theorem was added afterwards. Source::pos is modelled by the number of octets left in the base source (only differences of positions are used).'
